@@ -267,6 +267,10 @@ def explore(fn, base=(), opts=None, catch=(Exception,), max_paths=2000):
                 except catch as e:  # the code under test raised: a legitimate path end
                     if isinstance(e, (AssertionError,)) and getattr(e, '_vf_internal', False):
                         raise
+                    if isinstance(e, AttributeError) and (str(e).startswith("'str' object has no attribute") or str(e).startswith("'tuple' object has no attribute")):
+                        # contracts pass opaque tokens (plain strings / tuples) where the code only hands a value on; code that looks
+                        # inside such a value is outside what the contract's stand-ins provide
+                        raise Unsupported(f'the code inspects a value the contract only provides as an opaque token: {e}') from e
                     if isinstance(e, AttributeError) and "module 'snv." in str(e):
                         # a contract addressed a private function of the module that is not there any more (renamed, inlined)
                         raise Unsupported(f'the contract addresses a name the module no longer has: {e}') from e
